@@ -291,41 +291,41 @@ FLOW_TB = ["Float execution of the model (Lean runtime + libm) assumed IEEE bina
            "order laws of finite binary64 (strict weak order, x < nextUp x) assumed; proved for no concrete float type",
            "topology handed to the flow model is the real grid's neighbour lists (tied to the grid model in C07/C18)"]
 
-register("C01", lean_modules=['FsModel.PFlood', 'FsModel.Descent', 'FsModel.Tilt', 'FsProofs.Properties.C01', 'FsProofs.Properties.C01Multi', 'FsProofs.Properties.C01MstRouter', 'FsProofs.Properties.C01MstConnected', 'FsProofs.Properties.C01MstExample', 'FsProofs.Properties.ImplCheck', 'FsProofs.Properties.Closed'],
-         theorems=['Fs.C01.C01_pflood_singleRouter', 'Fs.C01.C01_pflood_multiRouter', 'Fs.ImplCheck.checkFlow_sound', 'Fs.ImplCheck.checkFlow_paths', 'Fs.Closed.raster_C01_pflood_single', 'Fs.Closed.raster_C01_pflood_multi', 'Fs.Closed.raster_C01_mst', 'Fs.C01Mst.resolve_c01_singleRouter', 'Fs.C01Mst.resolve_c01_kruskal_sorted', 'Fs.C01Mst.resolve_c01_tree', 'Fs.C01Mst.resolve_c01_connected',
+register("C01", lean_modules=["FsProofs.Properties.ShapesC01", 'FsModel.PFlood', 'FsModel.Descent', 'FsModel.Tilt', 'FsProofs.Properties.C01', 'FsProofs.Properties.C01Multi', 'FsProofs.Properties.C01MstRouter', 'FsProofs.Properties.C01MstConnected', 'FsProofs.Properties.C01MstExample', 'FsProofs.Properties.ImplCheck', 'FsProofs.Properties.Closed'],
+         theorems=["Fs.Shapes.source_shape_C01", 'Fs.C01.C01_pflood_singleRouter', 'Fs.C01.C01_pflood_multiRouter', 'Fs.ImplCheck.checkFlow_sound', 'Fs.ImplCheck.checkFlow_paths', 'Fs.Closed.raster_C01_pflood_single', 'Fs.Closed.raster_C01_pflood_multi', 'Fs.Closed.raster_C01_mst', 'Fs.C01Mst.resolve_c01_singleRouter', 'Fs.C01Mst.resolve_c01_kruskal_sorted', 'Fs.C01Mst.resolve_c01_tree', 'Fs.C01Mst.resolve_c01_connected',
                    'Fs.C01Mst.routeCarve_spec', 'Fs.C01Mst.routeBasic_spec', 'Fs.C01Mst.rerouted_forest', 'Fs.C01Mst.rerouted_base', 'Fs.C01Mst.orient_spec', 'Fs.C01Mst.orient_reached_iff', 'Fs.C01Mst.kruskal_keeps_virtual', 'Fs.C01.pflood_terminates', 'Fs.pflood_parent', 'Fs.pflood_complete', 'Fs.step_wf', 'Fs.Tilt.tilt_descends'], gen=gen_resolved, oracles=[oracle.c01], cause=oracle.c01_cause,
          model_certs={"cert_mst": ("1", "spanning_tree_certificate", "the Lean checker certOk (Fs.C15.certOk_sound) rejects the raw spanning tree used by this resolver run as a minimum-weight spanning forest that keeps the virtual root edges (the tree facts assumed by Fs.C01Mst.resolve_c01_tree)"),
                       "cert_c01": ("1", "reaches_base", "the Lean checker checkFlow (soundness: Fs.ImplCheck.checkFlow_sound / checkFlow_paths) rejects the receivers and elevation REPORTED BY THE IMPLEMENTATION: a terminal node drains, a step is not strictly descending to an unmasked (neighbour) node, or a node connected to a base level is a pit")},
          sections={"elev", "update"} | GRAPH_SECTIONS, nontrivial=raised_or_rerouted, tags=tags_flow,
          rule="random grids (raster 3 connectivities/border mixes, profile, mesh) x elevation families (ties, plateaus, zero, subnormal, huge, nested cones) x masks x base-level sets x six resolver variants [+ multi router]; non-trivial = at least one node was raised by the resolver",
          trusted_base=FLOW_TB)
-register("C02", lean_modules=["FsProofs.Properties.ClosedMore", "FsModel.PFlood", "FsProofs.Properties.C02", "FsProofs.Properties.C02MstRouter", "FsProofs.Properties.C02MstExample", "FsProofs.Properties.C02MstUpperExample", "FsProofs.Properties.Closed"],
-         theorems=["Fs.Closed.raster_C02_pflood", "Fs.Closed.raster_C02_mst_upper", "Fs.Closed.raster_C02_mst_spill_level", "Fs.Closed.mesh_C02_mst_upper", "Fs.Closed.sf_ubLaws", "Fs.C02Mst.resolve_c02_upper_singleRouter", "Fs.C02Mst.resolve_c02_spill_level_singleRouter", "Fs.C02Mst.resolve_le_spill", "Fs.C02Mst.low_of_path", "Fs.C02Mst.resolve_newpath_bounded", "Fs.C02Mst.resolve_c02_singleRouter", "Fs.C02Mst.resolve_ge_input", "Fs.C02Mst.resolve_fixed", "Fs.C02Mst.resolve_fixed_above", "Fs.C02Mst.resolve_exact_shape", "Fs.C02Mst.resolve_chain", "Fs.C02Mst.resolve_ge_spill_carve", "Fs.C02Mst.tilt_shape", "Fs.Closed.raster_C02_mst",
+register("C02", lean_modules=["FsProofs.Properties.ShapesC02", "FsProofs.Properties.ClosedMore", "FsModel.PFlood", "FsProofs.Properties.C02", "FsProofs.Properties.C02MstRouter", "FsProofs.Properties.C02MstExample", "FsProofs.Properties.C02MstUpperExample", "FsProofs.Properties.Closed"],
+         theorems=["Fs.Shapes.source_shape_C02", "Fs.Closed.raster_C02_pflood", "Fs.Closed.raster_C02_mst_upper", "Fs.Closed.raster_C02_mst_spill_level", "Fs.Closed.mesh_C02_mst_upper", "Fs.Closed.sf_ubLaws", "Fs.C02Mst.resolve_c02_upper_singleRouter", "Fs.C02Mst.resolve_c02_spill_level_singleRouter", "Fs.C02Mst.resolve_le_spill", "Fs.C02Mst.low_of_path", "Fs.C02Mst.resolve_newpath_bounded", "Fs.C02Mst.resolve_c02_singleRouter", "Fs.C02Mst.resolve_ge_input", "Fs.C02Mst.resolve_fixed", "Fs.C02Mst.resolve_fixed_above", "Fs.C02Mst.resolve_exact_shape", "Fs.C02Mst.resolve_chain", "Fs.C02Mst.resolve_ge_spill_carve", "Fs.C02Mst.tilt_shape", "Fs.Closed.raster_C02_mst",
                    "Fs.C02.pflood_ge_input", "Fs.C02.pflood_fixed", "Fs.C02.pflood_ge_spill", "Fs.C02.pflood_le_spill", "Fs.C02.run_erase", "Fs.C02.ubInit_erase", "Fs.C02.ubInit_inv", "Fs.pflood_parent", "Fs.pflood_complete"], gen=gen_resolved, oracles=[oracle.c02], sections={"elev"}, nontrivial=raised_or_rerouted, tags=tags_flow,
          model_certs={"cert_mst": ("1", "spanning_tree_certificate", "the Lean checker certOk (Fs.C15.certOk_sound) rejects the raw spanning tree used by this resolver run as a minimum-weight spanning forest that keeps the virtual root edges (the tree facts assumed by Fs.C02Mst.resolve_le_of_low)")},
          rule="same scenario family as C01; oracle = independent Bellman minimax spill level; non-trivial = some node raised",
          trusted_base=FLOW_TB)
-register("C03", lean_modules=["FsProofs.Properties.C03", "FsProofs.Properties.C03Cons", "FsProofs.Properties.C03E2E", "FsProofs.Properties.Closed"], theorems=["Fs.C03.multi_accumulate_recurrence", "Fs.C03.multi_accumulate_conservation", "Fs.C03.multi_accumulate_nonneg", "Fs.C03.single_accumulate_recurrence", "Fs.C03.single_accumulate_conservation", "Fs.C03.single_accumulate_nonneg", "Fs.Closed.raster_C03_multi_conservation", "Fs.Closed.raster_C03_single_conservation", "Fs.C03.accumulate_recurrence", "Fs.C03.sweep_recurrence", "Fs.C03.accStep_get", "Fs.C03.contrib_nonneg", "Fs.C03.sweep_conservation", "Fs.C03.accumulate_conservation"],
+register("C03", lean_modules=["FsProofs.Properties.ShapesC03", "FsProofs.Properties.C03", "FsProofs.Properties.C03Cons", "FsProofs.Properties.C03E2E", "FsProofs.Properties.Closed"], theorems=["Fs.Shapes.source_shape_C03", "Fs.C03.multi_accumulate_recurrence", "Fs.C03.multi_accumulate_conservation", "Fs.C03.multi_accumulate_nonneg", "Fs.C03.single_accumulate_recurrence", "Fs.C03.single_accumulate_conservation", "Fs.C03.single_accumulate_nonneg", "Fs.Closed.raster_C03_multi_conservation", "Fs.Closed.raster_C03_single_conservation", "Fs.C03.accumulate_recurrence", "Fs.C03.sweep_recurrence", "Fs.C03.accStep_get", "Fs.C03.contrib_nonneg", "Fs.C03.sweep_conservation", "Fs.C03.accumulate_conservation"],
          gen=lambda r, t: gen_any_ops(r, t, acc=True), oracles=[oracle.c03], sections={"acc", "acc_overloads_agree"},
          nontrivial=has_pits_or_multi, tags=tags_flow,
          rule="routed graphs of all operator families x scalar/array sources (negative values included); exact-rational recurrence and conservation on the implementation's doubles; non-trivial = graph has a confluence or multiple receivers",
          trusted_base=FLOW_TB + ["accumulation theorems are over exact arithmetic (commutative ring); rounding is covered only by the bit-exact correspondence and the rational oracle with an error bound"])
-register("C04", lean_modules=['FsModel.Router', 'FsProofs.Properties.C04', 'FsProofs.Properties.Closed'], theorems=['Fs.Closed.raster_C04', 'Fs.Closed.raster_hlow', 'Fs.Closed.rasterTopo_ok', 'Fs.Router.route_spec', 'Fs.C04.rows', 'Fs.C04.terminal_row', 'Fs.C04.routed_row', 'Fs.C04.recv_lower'], gen=gen_single, oracles=[oracle.c04], sections={"recv", "rdist", "rweight", "rcount"}, nontrivial=has_pits_or_multi, tags=tags_flow,
+register("C04", lean_modules=["FsProofs.Properties.ShapesC04", 'FsModel.Router', 'FsProofs.Properties.C04', 'FsProofs.Properties.Closed'], theorems=["Fs.Shapes.source_shape_C04", 'Fs.Closed.raster_C04', 'Fs.Closed.raster_hlow', 'Fs.Closed.rasterTopo_ok', 'Fs.Router.route_spec', 'Fs.C04.rows', 'Fs.C04.terminal_row', 'Fs.C04.routed_row', 'Fs.C04.recv_lower'], gen=gen_single, oracles=[oracle.c04], sections={"recv", "rdist", "rweight", "rcount"}, nontrivial=has_pits_or_multi, tags=tags_flow,
          rule="single router (sequential and parallel), raw and flooded fields; non-trivial = at least two nodes share a receiver", trusted_base=FLOW_TB)
-register("C05", lean_modules=["FsProofs.Properties.C05", "FsProofs.Properties.C03E2E"], theorems=["Fs.C05.multiRouter_weights", "Fs.C05.multiRouter_weights_terminal", "Fs.C05.multiRouter_row_cases", "Fs.C05.terminal_row", "Fs.C05.pit_row", "Fs.C05.receivers_row", "Fs.C05.weights_spec", "Fs.C05.foldl_max_spec"],
+register("C05", lean_modules=["FsProofs.Properties.ShapesC05", "FsProofs.Properties.C05", "FsProofs.Properties.C03E2E"], theorems=["Fs.Shapes.source_shape_C05", "Fs.C05.multiRouter_weights", "Fs.C05.multiRouter_weights_terminal", "Fs.C05.multiRouter_row_cases", "Fs.C05.terminal_row", "Fs.C05.pit_row", "Fs.C05.receivers_row", "Fs.C05.weights_spec", "Fs.C05.foldl_max_spec"],
          gen=gen_multi, oracles=[oracle.c05], cause=oracle.c05_cause, sections={"recv", "rdist", "rweight", "rcount"},
          nontrivial=has_pits_or_multi, tags=tags_flow,
          rule="multi router x exponents {0, .5, 1, 1.1, 2, 8}, exponent changed between updates, flooded fields; non-trivial = some node has several receivers",
          trusted_base=FLOW_TB + ["weights theorem is over an ordered field with an abstract pow satisfying pow 1 = 1, 0 <= pow x"])
-register("C06", lean_modules=['FsModel.Donors', 'FsModel.Dfs', 'FsProofs.DfsPerm', 'FsModel.Bfs', 'FsProofs.Properties.C06', 'FsProofs.Properties.C06Bfs', 'FsProofs.Properties.C06Kahn', 'FsProofs.Properties.C06Graphs', 'FsProofs.Properties.ImplCheck', 'FsProofs.Properties.Closed'],
-         theorems=['Fs.Closed.raster_C06_single', 'Fs.Closed.raster_C06_multi', 'Fs.ImplCheck.checkC06_sound', 'Fs.ImplCheck.checkDfs_iff', 'Fs.ImplCheck.checkBfs_iff', 'Fs.C06.single_donors_inverse', 'Fs.C06.single_dfs', 'Fs.C06.singleRouter_bfs', 'Fs.C06.multi_donors_inverse', 'Fs.C06.multi_dfs', 'Fs.C06.multi_bfs',
+register("C06", lean_modules=["FsProofs.Properties.ShapesC06", 'FsModel.Donors', 'FsModel.Dfs', 'FsProofs.DfsPerm', 'FsModel.Bfs', 'FsProofs.Properties.C06', 'FsProofs.Properties.C06Bfs', 'FsProofs.Properties.C06Kahn', 'FsProofs.Properties.C06Graphs', 'FsProofs.Properties.ImplCheck', 'FsProofs.Properties.Closed'],
+         theorems=["Fs.Shapes.source_shape_C06", 'Fs.Closed.raster_C06_single', 'Fs.Closed.raster_C06_multi', 'Fs.ImplCheck.checkC06_sound', 'Fs.ImplCheck.checkDfs_iff', 'Fs.ImplCheck.checkBfs_iff', 'Fs.C06.single_donors_inverse', 'Fs.C06.single_dfs', 'Fs.C06.singleRouter_bfs', 'Fs.C06.multi_donors_inverse', 'Fs.C06.multi_dfs', 'Fs.C06.multi_bfs',
                    'Fs.C06.mem_donors', 'Fs.C06.mem_donors_ne', 'Fs.C06.donors_nodup', 'Fs.C06.dfs_perm', 'Fs.C06.dfs_recv_before', 'Fs.C06.single_bfs', 'Fs.C06.bfs_levels_spec', 'Fs.C06.kahn_spec',
                    'Fs.C06.singleRouter_graph', 'Fs.C06.multi_kdag', 'Fs.C06.multi_dag',
                    'Fs.Donors.mem_donors', 'Fs.Donors.donors_nodup', 'Fs.Dfs.dfs_recv_before', 'Fs.Dfs.dfs_perm', 'Fs.Bfs.next_level_receivers'], gen=lambda r, t: gen_any_ops(r, t), oracles=[oracle.c06], sections={"dcount", "donors", "dfs", "bfs", "levels", "rcount", "recv"},
          model_certs={"cert_c06": ("1", "tables_certificate", "the Lean checker checkC06 (soundness: Fs.ImplCheck.checkC06_sound) rejects the donors / bottom-up order / breadth-first levels REPORTED BY THE IMPLEMENTATION")},
          nontrivial=has_pits_or_multi, tags=tags_flow,
          rule="all operator families incl. spanning-tree re-routing, masks, repeated updates on one object; snapshots' tables checked too", trusted_base=FLOW_TB)
-register("C19", lean_modules=["FsProofs.Properties.ClosedMore", 'FsModel.Basins', 'FsProofs.Properties.C19', 'FsProofs.Properties.ImplCheck'], theorems=["Fs.Closed.raster_C19_basins", "Fs.Closed.mesh_C19_basins", "Fs.Closed.profile_C19_basins", 'Fs.C19.basins_spec', 'Fs.ImplCheck.checkBasins_sound', 'Fs.ImplCheck.checkBasins_drain', 'Fs.C19.run_blocks', 'Fs.Basins.run_block', 'Fs.Basins.block_labels_agree'], gen=lambda r, t: gen_any_ops(r, t, basins=True), oracles=[oracle.c19], sections={"basins", "outlets", "pits"},
+register("C19", lean_modules=["FsProofs.Properties.ShapesC19", "FsProofs.Properties.ClosedMore", 'FsModel.Basins', 'FsProofs.Properties.C19', 'FsProofs.Properties.ImplCheck'], theorems=["Fs.Shapes.source_shape_C19", "Fs.Closed.raster_C19_basins", "Fs.Closed.mesh_C19_basins", "Fs.Closed.profile_C19_basins", 'Fs.C19.basins_spec', 'Fs.ImplCheck.checkBasins_sound', 'Fs.ImplCheck.checkBasins_drain', 'Fs.C19.run_blocks', 'Fs.Basins.run_block', 'Fs.Basins.block_labels_agree'], gen=lambda r, t: gen_any_ops(r, t, basins=True), oracles=[oracle.c19], sections={"basins", "outlets", "pits"},
          model_certs={"cert_c19": ("1", "basins_certificate", "the Lean checker checkBasins (soundness: Fs.ImplCheck.checkBasins_sound) rejects the labels / outlets / pits REPORTED BY THE IMPLEMENTATION")},
          nontrivial=has_pits_or_multi, tags=tags_flow,
          rule="basins/outlets/pits after every single-direction sequence, masks, carve/basic re-routing, repeated calls", trusted_base=FLOW_TB)
@@ -597,7 +597,7 @@ def gen_histories(rng, tier):
     return out
 
 
-register("C09", lean_modules=["FsProofs.Properties.C09", "FsProofs.Properties.C09Pure"], theorems=["Fs.C09.callUpdate_history_free", "Fs.C09.update_eq_fresh", "Fs.C09.runOps_history_free", "Fs.C09.mstHook_pure", "Fs.C09.pfInit_perm", "Fs.C09.pflood_perm", "Fs.C09.pfInit_fields", "Fs.UB.seedQueue_perm"],
+register("C09", lean_modules=["FsProofs.Properties.ShapesC15", "FsProofs.Properties.C09", "FsProofs.Properties.C09Pure"], theorems=["Fs.Shapes.source_shape_C15", "Fs.C09.callUpdate_history_free", "Fs.C09.update_eq_fresh", "Fs.C09.runOps_history_free", "Fs.C09.mstHook_pure", "Fs.C09.pfInit_perm", "Fs.C09.pflood_perm", "Fs.C09.pfInit_fields", "Fs.UB.seedQueue_perm"],
          gen=gen_histories, oracles=[oracle.c09], sections=None, nontrivial=raised_or_rerouted, tags=tags_flow,
          rule="one graph object driven through a random history (updates with other fields, masks, base-level sets of different sizes - which rehash the hash set -, exponent changes, accumulate, basins), then final inputs applied twice (repeat) and to a fresh graph on the same grid object; all observable tables, elevation, accumulation and basins compared bit for bit; non-trivial = resolver raised some node",
          trusted_base=FLOW_TB + ["the hash-set iteration order of base levels is handed to the model as an input and is universally quantified in the seed-order theorem"])
@@ -606,7 +606,7 @@ register("C09", lean_modules=["FsProofs.Properties.C09", "FsProofs.Properties.C0
 # ----------------------------------------------------------------------------- manifest texts
 NOT_CLAIMED = {}
 
-_CORR = ("Every run re-checks these theorems (lake build + #print axioms), regenerates the data part of the model from /repo, "
+_CORR = ("Every run re-checks these theorems (lake build + #print axioms), regenerates the data part of the model AND the statement-level shape facts of the transcribed algorithms from /repo (Fs.Shapes.source_shape_*: decide over facts 'this statement of the source is the one the model transcribes'), "
          "runs the compiled Lean model and the real code (ASan/UBSan build of /repo's working tree) on the same generated scenarios "
          "with bit-exact comparison, and evaluates an independent oracle of the property on the implementation's outputs.")
 
@@ -865,8 +865,8 @@ def bg_nontrivial(si):
     return any(c.cmd == "bgraph" and len(c.O.get("bg_tree", [])) >= 1 for c in si.calls)
 
 
-register("C15", lean_modules=["FsProofs.Properties.C15UnionFind", "FsProofs.Properties.C15", "FsProofs.Properties.C15Min", "FsProofs.Properties.C15Cert", "FsProofs.Properties.C15Connect", "FsProofs.Properties.C15Bottleneck", "FsProofs.Properties.C01MstOrientComplete"],
-         theorems=["Fs.C15.kruskalUF_eq", "Fs.C15.find_spec", "Fs.C15.find_compresses", "Fs.C15.merge_spec", "Fs.C15.kruskalUF_min_weight", "Fs.C15.kruskal_exec_bottleneck", "Fs.C15.kruskal_minimax_iff", "Fs.C15Connect.c15_edge_sound", "Fs.C15Connect.c15_edge_unique", "Fs.C15Connect.c15_lowest_pass", "Fs.C15Connect.c15_lowest_pass_exists", "Fs.C15Connect.c15_virtual",
+register("C15", lean_modules=["FsProofs.Properties.ShapesC15", "FsProofs.Properties.C15UnionFind", "FsProofs.Properties.C15", "FsProofs.Properties.C15Min", "FsProofs.Properties.C15Cert", "FsProofs.Properties.C15Connect", "FsProofs.Properties.C15Bottleneck", "FsProofs.Properties.C01MstOrientComplete"],
+         theorems=["Fs.Shapes.source_shape_C15", "Fs.C15.kruskalUF_eq", "Fs.C15.find_spec", "Fs.C15.find_compresses", "Fs.C15.merge_spec", "Fs.C15.kruskalUF_min_weight", "Fs.C15.kruskal_exec_bottleneck", "Fs.C15.kruskal_minimax_iff", "Fs.C15Connect.c15_edge_sound", "Fs.C15Connect.c15_edge_unique", "Fs.C15Connect.c15_lowest_pass", "Fs.C15Connect.c15_lowest_pass_exists", "Fs.C15Connect.c15_virtual",
                    "Fs.C01Mst.orient_spec", "Fs.C01Mst.orient_reached_iff", "Fs.C15.certImpl_sound", "Fs.C15.certOk_sound", "Fs.C15.certOk_kruskal", "Fs.C15.kruskal_exec_min_weight", "Fs.C15.kruskal_exec_is_spanning_forest", "Fs.C15.kruskal_min_weight", "Fs.C15.kruskal_minimum_spanning_forest", "Fs.C15.validPerm_sorted", "Fs.C15.exchange",
                    "Fs.C15.kruskal_sim", "Fs.C15.kruskal_spanning", "Fs.C15.kruskal_forest", "Fs.Kruskal.kruskal_agree", "Fs.Kruskal.kruskal_forest"],
          gen=gen_bgraph, oracles=[oracle.c15], nontrivial=bg_nontrivial, tags=bg_tags,
@@ -1009,11 +1009,11 @@ def spl_nontrivial(si):
 SPL_TB = FLOW_TB + ["std::pow of the C++ side and Float.pow of the Lean runtime are the same libm function (bit-identical results observed on every compared scenario)",
                     "SPL theorems are over an ordered field (exact arithmetic); rounding is covered by the bit-exact correspondence and the oracle's documented allowance",
                     "the m_linear classification expression and the Newton exit test are regenerated from spl.hpp by translate.py"]
-register("C12", lean_modules=["FsProofs.Properties.ClosedMore", "FsProofs.Properties.C12", "FsProofs.Properties.C13"], theorems=["Fs.Closed.raster_C12_spl_single", "Fs.Closed.raster_C12_spl_multi", "Fs.Closed.erode_nonneg_routed", "Fs.C13.erode_zero", "Fs.C13.erode_floor", "Fs.C13.sweep_final", "Fs.C13.erode_look", "Fs.C12.nodeStep_skip", "Fs.C12.nodeStep_linear", "Fs.C12.spl_floor", "Fs.C12.spl_nonneg", "Fs.C12.fold_linear", "Fs.C12.contribs_nonneg"],
+register("C12", lean_modules=["FsProofs.Properties.ShapesC12", "FsProofs.Properties.ClosedMore", "FsProofs.Properties.C12", "FsProofs.Properties.C13"], theorems=["Fs.Shapes.source_shape_C12", "Fs.Closed.raster_C12_spl_single", "Fs.Closed.raster_C12_spl_multi", "Fs.Closed.erode_nonneg_routed", "Fs.C13.erode_zero", "Fs.C13.erode_floor", "Fs.C13.sweep_final", "Fs.C13.erode_look", "Fs.C12.nodeStep_skip", "Fs.C12.nodeStep_linear", "Fs.C12.spl_floor", "Fs.C12.spl_nonneg", "Fs.C12.fold_linear", "Fs.C12.contribs_nonneg"],
          gen=gen_spl, oracles=[oracle.c12], cause=oracle.spl_cause, nontrivial=spl_nontrivial, tags=spl_tags,
          sections={"erosion", "ncorr", "spl"},
          rule="routed graphs (single / parallel single / multi, pflood or spanning-tree resolved or unresolved, masks, interior base levels) x K scalar/array (0 .. 1, x0.1..3 variation) x m in {.3,.5,1} x n in {.5,.8,1,1.5,2,4} x tol x dt in {0,1,10,100,1e4,1e8} x random areas up to 1e6; 1-2 erode() calls per update on one eroder object, elevation = routed field or another field; non-trivial = some erosion is non-zero")
-register("C13", lean_modules=["FsProofs.Properties.ClosedMore", "FsProofs.Properties.C12", "FsProofs.Properties.C13"], theorems=["Fs.Closed.raster_C12_spl_single", "Fs.Closed.raster_C12_spl_multi", "Fs.C13.erode_residual", "Fs.C13.erode_newton_residual", "Fs.C13.spl_newton_residual", "Fs.C13.newton_exit", "Fs.C13.newton_none_iff", "Fs.C13.nodeStep_newton_single", "Fs.C13.sweep_final", "Fs.C12.spl_residual", "Fs.C12.nodeStep_linear", "Fs.C12.fold_linear", "Fs.Spl.solve_residual"],
+register("C13", lean_modules=["FsProofs.Properties.ShapesC13", "FsProofs.Properties.ClosedMore", "FsProofs.Properties.C12", "FsProofs.Properties.C13"], theorems=["Fs.Shapes.source_shape_C13", "Fs.Closed.raster_C12_spl_single", "Fs.Closed.raster_C12_spl_multi", "Fs.C13.erode_residual", "Fs.C13.erode_newton_residual", "Fs.C13.spl_newton_residual", "Fs.C13.newton_exit", "Fs.C13.newton_none_iff", "Fs.C13.nodeStep_newton_single", "Fs.C13.sweep_final", "Fs.C12.spl_residual", "Fs.C12.nodeStep_linear", "Fs.C12.fold_linear", "Fs.Spl.solve_residual"],
          gen=gen_spl, oracles=[oracle.c13], cause=oracle.spl_cause, nontrivial=spl_nontrivial, tags=spl_tags,
          sections={"erosion", "ncorr", "spl"},
          rule="same scenario family as C12; oracle evaluates the residual of the backward-Euler equation at every non-limited node (double arithmetic with a stated bound: tolerance + 64 eps x sensitivity-weighted magnitudes); non-trivial = some erosion is non-zero")
@@ -1084,8 +1084,8 @@ def adi_tags(si):
     return sorted(set(t))
 
 
-register("C14", lean_modules=["FsProofs.Properties.C14", "FsProofs.Properties.C14E2E", "FsProofs.Properties.C14Unique"],
-         theorems=["Fs.C14.erode_exists_unique", "Fs.C14.erode_determined", "Fs.C14.erode_determined_array", "Fs.C14.erode_determined_scalar", "Fs.C14.tridiag_unique", "Fs.C14.halfStepSpec_unique", "Fs.C14.secondHalfStepSpec_unique", "Fs.C14.erode_spec", "Fs.C14.erode_border_zero", "Fs.C14.halfStep_spec", "Fs.C14.halfStep_ne_none", "Fs.C14.erode_isSome_array", "Fs.C14.scalar_eq_uniform", "Fs.C14.erode_linear", "Fs.C14.thomas_linear",
+register("C14", lean_modules=["FsProofs.Properties.ShapesC14", "FsProofs.Properties.C14", "FsProofs.Properties.C14E2E", "FsProofs.Properties.C14Unique"],
+         theorems=["Fs.Shapes.source_shape_C14", "Fs.C14.erode_exists_unique", "Fs.C14.erode_determined", "Fs.C14.erode_determined_array", "Fs.C14.erode_determined_scalar", "Fs.C14.tridiag_unique", "Fs.C14.halfStepSpec_unique", "Fs.C14.secondHalfStepSpec_unique", "Fs.C14.erode_spec", "Fs.C14.erode_border_zero", "Fs.C14.halfStep_spec", "Fs.C14.halfStep_ne_none", "Fs.C14.erode_isSome_array", "Fs.C14.scalar_eq_uniform", "Fs.C14.erode_linear", "Fs.C14.thomas_linear",
                    "Fs.C14.thomas_solves", "Fs.C14.thomas_some", "Fs.C14.solveRow_eq", "Fs.C14.solveRow_isSome", "Fs.C14.solveRow_equations",
                    "Fs.C14.adi_pivots_ne_zero", "Fs.C14.factorsScalar_mid", "Fs.C14.factorsCol_mid", "Fs.C14.factorsRow_mid", "Fs.C14.factorsCol_nonneg"],
          gen=gen_adi, oracles=[oracle.c14], nontrivial=adi_nontrivial, tags=adi_tags,
